@@ -78,11 +78,14 @@ pub fn check_elem_case(ctx: &Ctx, reg: &Reg, s: &Spec, bytes: &[u8], prop: &str)
     }
     if e.where_clause.is_some() {
         ctx.class("generics:where-clause");
+        if e.generics.is_empty() {
+            ctx.class("generics:where-clause-without-params");
+        }
     }
     if o.want.is_err() {
         ctx.class("model:fails");
     }
-    if entries >= 2 || o.want.is_err() || (!e.generics.is_empty() && e.where_clause.is_some()) {
+    if entries >= 2 || o.want.is_err() || e.where_clause.is_some() {
         ctx.nontrivial(&(s.id, &o.text));
     }
     ctx.sample(|| json!({"receiver": emit_short(s), "input": o.text, "model": format!("{:?}", o.want).chars().take(400).collect::<String>()}));
